@@ -5510,6 +5510,13 @@ MORE_IN_SET:
         id = (int32) * p++;
 oid_parsing_done:
         /* Done with OID parsing */
+        if (dnEnd - p < 1)
+        {
+            /* The domainComponent/uid/email paths arrive here without
+               having checked that a value follows the OID. */
+            psTraceCrypto("Malformed DN attributes: no value\n");
+            return PS_LIMIT_FAIL;
+        }
         stringType = (int32) * p++;
 
         if (getAsnLength(&p, (uint32) (dnEnd - p), &llen) < 0 ||
